@@ -70,10 +70,8 @@ theorem WCtx.nonFlush_isSettled (c : WCtx) (r : WReq) : (c.nonFlush r).w.IsSettl
 
 theorem WCtx.finishBatch_isSettled (c : WCtx) (b : List WReq) (t : Option WReq) (ok : Bool) :
     (c.finishBatch b t ok).w.IsSettled := by
-  unfold WCtx.finishBatch
-  cases t with
-  | some r => exact WCtx.nonFlush_isSettled _ r
-  | none => exact WCtx.toRecv_isSettled _
+  rw [WCtx.finishBatch_eq]
+  exact WCtx.nonFlush_isSettled _ _
 
 theorem WCtx.startSync_isSettled (c : WCtx) (b : List WReq) (t : Option WReq) :
     (c.startSync b t).w.IsSettled := by
